@@ -316,7 +316,7 @@ TAGCODE = {v: k for k, v in TAGS.items()}
 def coq_ty(t):
     """Coq term of type ty from a VerifT JSON projection."""
     if t is None:
-        raise ValueError("nil T")
+        return "nil_ptr"
     vk = {"nil": "VNil", "int64": "VInt64", "float64": "VFloat64", "t": "VT", "other": "VOther"}.get(t["vk"])
     if t["vk"] == "str":
         vk = "(VStr %s)" % coq_str(t["vs"])
